@@ -416,7 +416,9 @@ def run(ctx):
                                 for a_, b_ in zip(idx_, perm_):
                                     order[b_ - 1] = a_ - 1
                                 pending_perms[cores[t][key].path] = order
-                if all(gs[t] == gs[ref_t] for t in have):
+                # compared as multisets: the order of effects that do not depend on each other is a matter of spelling (a
+                # dependence shows in the effect itself: loads carry the number of writes that precede them)
+                if all(sorted(map(str, gs[t])) == sorted(map(str, gs[ref_t])) for t in have):
                     diffs = []
                     f = cores[ref_t][key]
                     ctx.add(RULE, f, 'sibling(%s)' % key[1], 'ok', 'written differently in the %s copies, but the guarded effects (targets, values, guards, order%s) are identical' % ('/'.join(fams[t] for t in have), ', helpers inlined' if inl else ''),
@@ -429,7 +431,7 @@ def run(ctx):
             gsi = {t: G.gef(prog, cores[t][key], inline=True) for t in have}
             groups = {}
             for t in have:
-                groups.setdefault(repr(gsi[t]), []).append(t)
+                groups.setdefault(repr(sorted(map(str, gsi[t]))), []).append(t)
             odd = sorted(groups.values(), key=len)[0]
             odd_t = odd[0]
             f = cores[odd_t][key]
